@@ -27,12 +27,22 @@ namespace nmtools::index
                 auto in_axis = static_cast<bool>(
                     index::count([&](const auto ii){
                         using common_t = meta::promote_index_t<decltype(ii),size_t>;
-                        return (common_t)ii == (common_t)i;
+                        // following numpy, negative axis counts from the last axis
+                        auto axis = (nm_index_t)ii;
+                        if (axis < 0) {
+                            axis += (nm_index_t)(size_t)dim;
+                        }
+                        return (common_t)axis == (common_t)i;
                     }, axes)
                 );
                 nmtools::get<2>(at(result,i)) = in_axis ? -1 : 1;
             } else if constexpr (meta::is_index_v<axes_t>) {
-                nmtools::get<2>(at(result,i)) = ((size_t)axes == i) ? -1 : 1;
+                // following numpy, negative axis counts from the last axis
+                auto axis = (nm_index_t)axes;
+                if (axis < 0) {
+                    axis += (nm_index_t)(size_t)dim;
+                }
+                nmtools::get<2>(at(result,i)) = ((size_t)axis == i) ? -1 : 1;
             } else if constexpr (is_none_v<axes_t>) {
                 nmtools::get<2>(at(result,i)) = -1;
             }
